@@ -520,6 +520,69 @@ crate::harness! {
     fn c01_recording_of_draws_1_0() { recording_of_draws::<1, 0>(); }
 }
 
+// ---- C13: what the runtime does when the step bound is reached (FailAfter / ContinueAfter / None) ----------------
+// `ExecutionState::schedule` checks the bound first and only then walks the task table; the walk (and everything
+// behind it) is the part no solver run gets through (DESIGN.md 2.1), so under Kani the path ends at the task table's
+// `iter()` - after asserting that the bound had not been reached. Natively the whole function runs (no tasks: the
+// execution is finished).
+
+static mut BOUND_TRIPS: bool = false;
+
+#[cfg(kani)]
+pub fn tasktable_iter_stub(_t: &shuttle_engine::verif_support::TaskTable) -> shuttle_engine::verif_support::TaskTableIter<'_> {
+    assert!(!unsafe { BOUND_TRIPS }, "C13: the step bound was reached but the runtime went on to make a scheduling decision");
+    kani::cover!(true, "below the bound the runtime goes on to the scheduling decision");
+    kani::assume(false);
+    unreachable!()
+}
+
+crate::harness! {
+    #[kani::stub(shuttle_engine::verif_support::TaskTable::iter, crate::kp::tasktable_iter_stub)]
+    #[kani::unwind(4)]
+    fn c13_step_bound_reaction() {
+        use shuttle_engine::runtime::execution::{ExecutionState, VerifOutcome, VerifScheduled};
+        use shuttle_engine::{Config, MaxSteps};
+        use std::cell::RefCell;
+        use std::rc::Rc;
+        // recorded schedule of 3 steps (two task steps and one random draw)
+        let mut pre = Schedule::new(0);
+        pre.push_task(TaskId::from(0));
+        pre.push_random();
+        pre.push_task(TaskId::from(0));
+        ExecutionState::verif_init_schedule(pre);
+        let bound: usize = kani::any();
+        let mode: u8 = kani::any::<u8>() % 3;
+        let mut config = Config::new();
+        config.max_steps = match mode {
+            0 => MaxSteps::None,
+            1 => MaxSteps::FailAfter(bound),
+            _ => MaxSteps::ContinueAfter(bound),
+        };
+        let sched: Rc<RefCell<dyn Scheduler>> = Rc::new(RefCell::new(crate::env::NullSched));
+        let mut st = ExecutionState::verif_new(config, sched);
+        let reset: usize = (kani::any::<u8>() % 4) as usize; // reset_step_count() stores the current length, which never exceeds it
+        st.steps_reset_at = reset;
+        let steps = 3 - reset;
+        let trips = mode != 0 && steps >= bound;
+        unsafe { BOUND_TRIPS = trips };
+        let out = st.verif_schedule();
+        let next = st.verif_next_task();
+        if trips && mode == 1 {
+            assert!(out == VerifOutcome::StepBoundExceeded, "C13: FailAfter bound reached but the execution did not fail with the step-bound error");
+        } else if trips {
+            assert!(out == VerifOutcome::Ok && next == VerifScheduled::Stopped,
+                "C13: ContinueAfter bound reached but the execution was not silently stopped");
+        } else {
+            // only reached natively (no tasks: the execution is over); under Kani the path ended at the task table
+            assert!(out == VerifOutcome::Ok && next == VerifScheduled::Finished,
+                "C13: an execution below its step bound (or without one) was affected by the bound");
+        }
+        kani::cover!(trips && mode == 1 && steps == bound, "FailAfter bound reached exactly");
+        kani::cover!(trips && mode == 2, "ContinueAfter bound reached");
+        std::mem::forget(st);
+    }
+}
+
 // ---- C13: reset_step_count() restarts the count at zero ---------------------------------------------------------
 
 crate::harness! {
